@@ -42,6 +42,14 @@ type Cfg struct {
 	// else happens).  Coarser than the default (request processing and reply delivery scheduled separately);
 	// used for the larger configurations.
 	Atomic bool `json:"atomic,omitempty"`
+	// Sym: replicas without a script ("passive": they only answer) are interchangeable.  The state key is
+	// made invariant under permutations of passive replicas, of several moves that are images of each other
+	// under such a permutation only one is offered, and the probe phase visits passive replicas in an order
+	// that depends on their state only.
+	Sym bool `json:"sym,omitempty"`
+	// Coarse: a section issues its reads and writes and then PreCommit back to back in one scheduler step
+	// (no message is processed at that node in between).  A restriction of the schedule space.
+	Coarse bool `json:"coarse,omitempty"`
 }
 
 func (c *Cfg) name() string {
@@ -56,6 +64,15 @@ func (c *Cfg) name() string {
 	at := ""
 	if c.Atomic {
 		at = "/atomic-rpc"
+	}
+	if c.Sym {
+		at += "/sym"
+	}
+	if c.Coarse {
+		at += "/coarse-ops"
+	}
+	if c.Budget > 0 && len(c.Faults) == 1 {
+		at += "/only-" + c.Faults[0]
 	}
 	return fmt.Sprintf("%s/%dn[%s]/att%d/b%d%s", c.Transport, len(c.Scripts), strings.Join(s, "|"), c.MaxAttempts, c.Budget, at)
 }
@@ -224,7 +241,9 @@ type node struct {
 	lastVersion      int
 	results          []string
 	bcasts           []*bcast
-	abortIgnored     map[int64]bool // accepted pre-commit (by its SenderTime) that survived a newer Abort of the same proposer+version
+	abortIgnored     map[int64]bool // accepted pre-commit (by its SenderTime) that survived a newer Abort of the same proposer
+	lastPCTime       int64          // SenderTime of this node's latest PreCommit broadcast
+	committedPC      map[int64]bool // SenderTimes of the PreCommit broadcasts whose section went on to Commit
 	commits          int
 }
 
@@ -305,7 +324,7 @@ func newWorld(c *explore.Ctx, cfg *Cfg, codec *gobCodec, cnt *counters) *world {
 	w := &world{c: c, cfg: cfg, codec: codec, wake: make(chan struct{}, 1), installed: map[int]string{0: "0"}, winners: map[int]winner{}, cnt: cnt}
 	n := len(cfg.Scripts)
 	for i := 0; i < n; i++ {
-		w.nodes = append(w.nodes, &node{idx: i, id: tla.MakeString("n" + strconv.Itoa(i)), script: cfg.Scripts[i], attMax: cfg.MaxAttempts, phase: 'r', abortIgnored: map[int64]bool{}})
+		w.nodes = append(w.nodes, &node{idx: i, id: tla.MakeString("n" + strconv.Itoa(i)), script: cfg.Scripts[i], attMax: cfg.MaxAttempts, phase: 'r', abortIgnored: map[int64]bool{}, committedPC: map[int64]bool{}})
 	}
 	for i, nd := range w.nodes {
 		var hs []resources.ReplicaHandle
@@ -348,7 +367,53 @@ func (mv move) String() string {
 	return mv.kind + " " + mv.m.String()
 }
 
+// enabled lists the moves of the current state.  In Sym configurations, of several moves that address
+// passive replicas in identical situations (same state, same pending messages) with the same message
+// only the first is kept: the others lead to the same state up to a permutation of passive replicas.
 func (w *world) enabled() (free, faults []move) {
+	free, faults = w.enabledAll()
+	if !w.cfg.Sym || w.probing {
+		return
+	}
+	var sigs map[int]string
+	var k *keyCtx
+	dedupe := func(in []move) []move {
+		n := 0
+		for _, mv := range in {
+			if mv.m != nil && w.passive(mv.m.to) {
+				n++
+			}
+		}
+		if n < 2 {
+			return in
+		}
+		if sigs == nil {
+			k = w.newKeyCtx()
+			sigs = map[int]string{}
+			for i := range w.nodes {
+				if w.passive(i) {
+					sigs[i] = w.passiveSig(k, i)
+				}
+			}
+		}
+		seen := map[string]bool{}
+		out := in[:0:0]
+		for _, mv := range in {
+			if mv.m != nil && w.passive(mv.m.to) {
+				id := mv.kind + "|" + w.msgSeg(k, mv.m, false) + "|" + sigs[mv.m.to]
+				if seen[id] {
+					continue
+				}
+				seen[id] = true
+			}
+			out = append(out, mv)
+		}
+		return out
+	}
+	return dedupe(free), dedupe(faults)
+}
+
+func (w *world) enabledAll() (free, faults []move) {
 	for _, m := range w.pend {
 		if m.stage == 0 && w.cfg.Atomic && !m.dup {
 			free = append(free, move{kind: "rpc", m: m})
@@ -373,7 +438,8 @@ func (w *world) enabled() (free, faults []move) {
 		if m.dup {
 			continue
 		}
-		if m.stage == 0 && w.cfg.fault("drop-req") {
+		if m.stage == 0 && (w.cfg.fault("drop-req") || w.cfg.fault("drop-commit") && m.req.RequestType == resources.Commit) {
+			// drop-commit = drop-req restricted to Commit requests ("one lost Commit")
 			faults = append(faults, move{kind: "drop-req", m: m})
 		}
 		if (m.stage == 1 && m.err == nil || m.stage == 0 && w.cfg.Atomic) && w.cfg.fault("drop-reply") {
@@ -554,7 +620,7 @@ func (w *world) process(m *msg) {
 		after := w.dump(m.to)
 		// diagnosis only: did a newer Abort of the accepted proposer leave the acceptor locked?
 		if isAbort && before.AcceptedPreCommit && after.AcceptedPreCommit &&
-			before.Accepted.Sender.Equal(m.req.Sender) && before.Accepted.Version == m.req.Version &&
+			before.Accepted.Sender.Equal(m.req.Sender) &&
 			before.Accepted.SenderTime < m.req.SenderTime && after.Accepted.SenderTime == before.Accepted.SenderTime {
 			to.abortIgnored[before.Accepted.SenderTime] = true
 		}
@@ -651,6 +717,7 @@ func (w *world) settle() {
 		b.outstanding++
 		if m.req.RequestType == resources.PreCommit {
 			nd.backoff = false
+			nd.lastPCTime = m.req.SenderTime
 		}
 		// a re-sent Abort/Commit ends the corresponding retry sleep
 		for i, s := range w.sleepers {
@@ -699,6 +766,15 @@ func (w *world) settle() {
 
 // nodeOp performs the node's next resource operation, as MPCalContext.Run would.
 func (w *world) nodeOp(nd *node, siblingRefuses bool) {
+	if w.cfg.Coarse && !w.probing && !siblingRefuses {
+		for nd.phase == 'r' && nd.op == nil && (nd.ops()[nd.pc] == 'R' || nd.ops()[nd.pc] == 'W') {
+			w.nodeOp1(nd, false)
+		}
+	}
+	w.nodeOp1(nd, siblingRefuses)
+}
+
+func (w *world) nodeOp1(nd *node, siblingRefuses bool) {
 	if nd.phase == 'a' || siblingRefuses {
 		if siblingRefuses {
 			w.logf("   n%d: a sibling resource refused its pre-commit: the section is aborted after PreCommit succeeded", nd.idx)
@@ -769,6 +845,7 @@ func (w *world) nodeOp(nd *node, siblingRefuses bool) {
 		w.winners[target] = winner{nd.idx, nd.sec, nd.attempt, valStr(nd.wval)}
 		w.logf("   n%d: Commit() for version %d value %s", nd.idx, target, nd.wval)
 		nd.commits = target
+		nd.committedPC[nd.lastPCTime] = true
 		w.startAsync(nd, 'C', func() { nd.res.Commit(iface) })
 	}
 }
@@ -876,31 +953,50 @@ func (w *world) final() {
 		}
 	}
 	relKey, relWhat := "", ""
+	locked := -1
 	for i, d := range ds {
 		if !d.AcceptedPreCommit {
 			continue
 		}
+		ignored := w.nodes[i].abortIgnored[d.Accepted.SenderTime]
 		if d.Accepted.Version <= maxV {
-			// the version it is locked for has been decided elsewhere: stale, blocks nobody else; not judged
-			w.cnt.staleAcceptDecided.Add(1)
-			continue
+			// The version it is locked for has been decided elsewhere.  If the proposal it holds was committed
+			// (it missed the Commit) or no Abort reached it (lost, and the proposer stopped retrying because
+			// its version moved) the replica is merely stale: counted, not judged.  But a proposal that was
+			// never committed and whose proposer's later Abort was delivered to this replica while it held
+			// it, without releasing it, is an aborted proposal that was not released.
+			committed := false
+			if s := w.senderIdx(d.Accepted.Sender); s >= 0 {
+				committed = w.nodes[s].committedPC[d.Accepted.SenderTime]
+			}
+			if !ignored || committed {
+				w.cnt.staleAcceptDecided.Add(1)
+				continue
+			}
 		}
 		if relKey != "" {
 			continue
 		}
 		cause := "no-abort-after-accept"
-		if w.nodes[i].abortIgnored[d.Accepted.SenderTime] {
+		if ignored {
 			cause = "abort-ignored"
 		}
 		relKey = "release/" + cause
-		relWhat = fmt.Sprintf("quiescent (no message pending, no section in flight, no retry timer) but n%d still holds the pre-commit of %s for version %d, which was never committed (highest installed version %d): the aborted proposal was not released", i, d.Accepted.Sender, d.Accepted.Version, maxV)
+		locked = i
+		if d.Accepted.Version <= maxV {
+			relWhat = fmt.Sprintf("quiescent (no message pending, no section in flight, no retry timer) but n%d still holds the pre-commit of %s for version %d although that proposal was aborted and the proposer's Abort was delivered to n%d while it held it (n%d is at version %d, highest installed version %d): the aborted proposal was not released", i, d.Accepted.Sender, d.Accepted.Version, i, i, d.Version, maxV)
+		} else {
+			relWhat = fmt.Sprintf("quiescent (no message pending, no section in flight, no retry timer) but n%d still holds the pre-commit of %s for version %d, which was never committed (highest installed version %d): the aborted proposal was not released", i, d.Accepted.Sender, d.Accepted.Version, maxV)
+		}
 		w.logf("RELEASE VIOLATED: %s", relWhat)
 	}
 	// progress: every node in turn runs one more increment alone, no faults, FIFO delivery, 3 attempts
 	w.probing = true
 	w.logf("-- probe phase: each node in turn runs one increment alone")
 	ok := 0
-	for _, nd := range w.nodes {
+	lockedAlone := ""
+	for _, ni := range w.probeOrder(locked) {
+		nd := w.nodes[ni]
 		nd.script = append(nd.script[:len(nd.script):len(nd.script)], "rmw")
 		nd.sec = len(nd.script) - 1
 		nd.attempt, nd.pc, nd.hasRead, nd.wrote, nd.phase, nd.attMax = 0, 0, false, false, 'r', 3
@@ -923,12 +1019,18 @@ func (w *world) final() {
 		}
 		if len(nd.results) > nres && strings.Contains(nd.results[len(nd.results)-1], "commit") {
 			ok++
+			if ni == locked {
+				lockedAlone = fmt.Sprintf("; n%d, run alone first, could commit", ni)
+			}
 		} else {
 			w.cnt.probeNodeFailed.Add(1)
+			if ni == locked {
+				lockedAlone = fmt.Sprintf("; n%d, run alone on the healthy network, aborted 3 of 3 attempts (it is wedged until some other node commits)", ni)
+			}
 		}
 	}
 	if relKey != "" {
-		w.fail(relKey, "%s; afterwards %d of %d nodes could still commit an increment when run alone", relWhat, ok, len(w.nodes))
+		w.fail(relKey, "%s%s; afterwards %d of %d nodes could commit an increment when run one after the other", relWhat, lockedAlone, ok, len(w.nodes))
 	}
 	if ok == 0 {
 		var st []string
@@ -938,6 +1040,32 @@ func (w *world) final() {
 		w.fail("no-progress", "after quiescence every node in turn ran an increment alone (no faults, all messages delivered, 3 attempts each) and none could commit: %s", strings.Join(st, " "))
 	}
 	w.c.Outcome("probe-ok=" + strconv.Itoa(ok))
+}
+
+// probeOrder: the replica that holds an unreleased proposal first (so the report can say what happens to it
+// when it is the only writer), then the nodes with a script by index, then (Sym) passive replicas ordered
+// by their state rather than by their index.
+func (w *world) probeOrder(first int) []int {
+	var order []int
+	if first >= 0 {
+		order = append(order, first)
+	}
+	var passive []int
+	for i := range w.nodes {
+		if i == first {
+			continue
+		}
+		if w.passive(i) {
+			passive = append(passive, i)
+		} else {
+			order = append(order, i)
+		}
+	}
+	if len(passive) > 1 {
+		sigs := w.passiveSigs()
+		sort.SliceStable(passive, func(a, b int) bool { return sigs[passive[a]] < sigs[passive[b]] })
+	}
+	return append(order, passive...)
 }
 
 // stuck: an operation is in flight but no move is enabled.  Let virtual time pass once more (in case a
@@ -1010,161 +1138,282 @@ func (w *world) senderIdx(v tla.Value) int {
 	return -1
 }
 
-// key renders everything the future of the execution depends on, except absolute virtual time:
-// SenderTimes are replaced by their rank among the times of the same sender that are still referenced.
-func (w *world) key() string {
-	n := len(w.nodes)
-	var times [8]timeSet
-	var ds [8]resources.VerifTwoPCDump
-	var stMax [8][8]int64
-	var accFrom [8]int
+// passive tells whether node i is an interchangeable passive replica (Sym configurations, before the
+// probe phase gives every node a section).
+func (w *world) passive(i int) bool {
+	return w.cfg.Sym && !w.probing && len(w.cfg.Scripts[i]) == 0
+}
+
+// keyCtx holds what the renderings of one state share: dumps and the per-sender rank of every SenderTime
+// that is still referenced somewhere.
+type keyCtx struct {
+	n       int
+	times   [8]timeSet
+	ds      [8]resources.VerifTwoPCDump
+	stMax   [8][8]int64
+	accFrom [8]int
+	slRank  []int // for w.sleepers[i]: its position in deadline order
+}
+
+func (w *world) newKeyCtx() *keyCtx {
+	k := &keyCtx{n: len(w.nodes)}
 	for i, nd := range w.nodes {
-		ds[i] = w.dump(i)
-		for s := 0; s < n; s++ {
-			stMax[i][s] = -1
+		k.ds[i] = w.dump(i)
+		for s := 0; s < k.n; s++ {
+			k.stMax[i][s] = -1
 			if s == i {
 				continue
 			}
 			if t, ok := resources.VerifTwoPCSenderTimeMax(nd.rcvr, w.nodes[s].id); ok {
-				stMax[i][s] = t
-				times[s].add(t)
+				k.stMax[i][s] = t
+				k.times[s].add(t)
 			}
 		}
-		accFrom[i] = -1
-		if ds[i].AcceptedPreCommit {
-			if s := w.senderIdx(ds[i].Accepted.Sender); s >= 0 {
-				accFrom[i] = s
-				times[s].add(ds[i].Accepted.SenderTime)
+		k.accFrom[i] = -1
+		if k.ds[i].AcceptedPreCommit {
+			if s := w.senderIdx(k.ds[i].Accepted.Sender); s >= 0 {
+				k.accFrom[i] = s
+				k.times[s].add(k.ds[i].Accepted.SenderTime)
 			}
 		}
 		for _, bc := range nd.bcasts {
-			times[i].add(bc.time)
+			k.times[i].add(bc.time)
 		}
 	}
 	for _, m := range w.pend {
-		times[m.from].add(m.req.SenderTime)
+		k.times[m.from].add(m.req.SenderTime)
 	}
 	for _, s := range w.sleepers {
-		times[s.from].add(s.time)
+		k.times[s.from].add(s.time)
 	}
-	w.kb = w.kb[:0]
-	for i, nd := range w.nodes {
-		d := &ds[i]
-		w.kStr("N")
-		w.kInt(d.Version)
-		w.kStr(" ")
-		w.kVal(d.Value)
-		w.kStr(" ")
-		w.kVal(d.OldValue)
-		w.kStr(" ")
-		w.kStr(d.CSState)
-		w.kStr(" pa")
-		w.kInt(d.PrecommitAttempts)
-		w.kStr(" f")
-		w.kInt(d.NumInFlight)
-		if d.AcceptedPreCommit {
-			s := accFrom[i]
-			w.kStr(" acc")
+	k.slRank = make([]int, len(w.sleepers))
+	for i, a := range w.sleepers {
+		for j, b := range w.sleepers {
+			if b.deadline.Before(a.deadline) || (b.deadline.Equal(a.deadline) && j < i) {
+				k.slRank[i]++
+			}
+		}
+	}
+	return k
+}
+
+// nodeSeg appends the rendering of node i (without its index).
+func (w *world) nodeSeg(k *keyCtx, i int) {
+	nd := w.nodes[i]
+	d := &k.ds[i]
+	w.kStr("N")
+	w.kInt(d.Version)
+	w.kStr(" ")
+	w.kVal(d.Value)
+	w.kStr(" ")
+	w.kVal(d.OldValue)
+	w.kStr(" ")
+	w.kStr(d.CSState)
+	w.kStr(" pa")
+	w.kInt(d.PrecommitAttempts)
+	w.kStr(" f")
+	w.kInt(d.NumInFlight)
+	if d.AcceptedPreCommit {
+		s := k.accFrom[i]
+		w.kStr(" acc")
+		w.kInt(s)
+		w.kStr(",")
+		w.kInt(d.Accepted.Version)
+		w.kStr(",")
+		w.kVal(d.Accepted.Value)
+		w.kStr(",")
+		if s >= 0 {
+			w.kInt(k.times[s].rank(d.Accepted.SenderTime))
+			w.kBool(w.nodes[s].committedPC[d.Accepted.SenderTime])
+		}
+		w.kBool(nd.abortIgnored[d.Accepted.SenderTime])
+	}
+	w.kStr(" st")
+	for s := 0; s < k.n; s++ {
+		if k.stMax[i][s] >= 0 {
 			w.kInt(s)
+			w.kStr(":")
+			w.kInt(k.times[s].rank(k.stMax[i][s]))
 			w.kStr(",")
-			w.kInt(d.Accepted.Version)
-			w.kStr(",")
-			w.kVal(d.Accepted.Value)
-			w.kStr(",")
-			if s >= 0 {
-				w.kInt(times[s].rank(d.Accepted.SenderTime))
-			}
-			w.kBool(nd.abortIgnored[d.Accepted.SenderTime])
 		}
-		w.kStr(" st")
-		for s := 0; s < n; s++ {
-			if stMax[i][s] >= 0 {
-				w.kInt(s)
-				w.kStr(":")
-				w.kInt(times[s].rank(stMax[i][s]))
-				w.kStr(",")
-			}
-		}
-		w.kStr(" s")
-		w.kInt(nd.sec)
-		w.kStr("a")
-		w.kInt(nd.attempt)
-		w.kStr("p")
-		w.kInt(nd.pc)
-		w.kStr("c")
-		w.kInt(nd.pcVersion)
-		w.kb = append(w.kb, nd.phase)
-		if nd.op != nil {
-			w.kb = append(w.kb, 'o', nd.op.kind)
-		}
-		if nd.hasRead {
-			w.kStr(" r")
-			w.kInt(int(nd.readVal))
-			w.kStr("@")
-			w.kInt(nd.readVer)
-		}
-		if nd.wrote {
-			w.kStr(" w")
-			w.kVal(nd.wval)
-		}
-		if nd.backoff {
-			w.kStr(" bo")
-		}
-		if len(nd.bcasts) > 0 {
-			var bs []string
-			for _, bc := range nd.bcasts {
-				bs = append(bs, fmt.Sprintf("%d.%d.%d:%d/%d/%d/%d", bc.typ, bc.version, times[i].rank(bc.time), bc.acc, bc.rej, bc.errs, bc.outstanding))
-			}
-			sort.Strings(bs)
-			w.kStr(" bc")
-			for _, s := range bs {
-				w.kStr(s)
-				w.kStr(",")
-			}
-		}
-		w.kStr(" R")
-		for _, r := range nd.results {
-			w.kStr(r)
-		}
-		w.kStr(";")
 	}
-	if len(w.pend) > 0 {
-		ms := make([]string, 0, len(w.pend))
-		for _, m := range w.pend {
-			b := make([]byte, 0, 48)
-			b = strconv.AppendInt(b, int64(m.from), 10)
-			b = append(b, '>')
-			b = strconv.AppendInt(b, int64(m.to), 10)
-			b = append(b, '.')
-			b = strconv.AppendInt(b, int64(m.req.RequestType), 10)
-			b = append(b, '.')
-			b = strconv.AppendInt(b, int64(m.req.Version), 10)
-			b = append(b, '.')
-			b = append(b, valStr(m.req.Value)...)
-			b = append(b, '.')
-			b = strconv.AppendInt(b, int64(times[m.from].rank(m.req.SenderTime)), 10)
-			if m.stage == 1 {
-				if m.err != nil {
-					b = append(b, ".err"...)
-				} else {
-					if m.resp.Accept {
-						b = append(b, ".A"...)
-					} else {
-						b = append(b, ".R"...)
-					}
-					b = strconv.AppendInt(b, int64(m.resp.Version), 10)
-					b = append(b, '.')
-					b = append(b, valStr(m.resp.Value)...)
-				}
-			}
-			if m.dup {
-				b = append(b, ".dup"...)
-			}
-			if m.dupped {
-				b = append(b, ".dd"...)
-			}
-			ms = append(ms, string(b))
+	w.kStr(" s")
+	w.kInt(nd.sec)
+	w.kStr("a")
+	w.kInt(nd.attempt)
+	w.kStr("p")
+	w.kInt(nd.pc)
+	w.kStr("c")
+	w.kInt(nd.pcVersion)
+	w.kb = append(w.kb, nd.phase)
+	if nd.op != nil {
+		w.kb = append(w.kb, 'o', nd.op.kind)
+	}
+	if nd.hasRead {
+		w.kStr(" r")
+		w.kInt(int(nd.readVal))
+		w.kStr("@")
+		w.kInt(nd.readVer)
+	}
+	if nd.wrote {
+		w.kStr(" w")
+		w.kVal(nd.wval)
+	}
+	if nd.backoff {
+		w.kStr(" bo")
+	}
+	if len(nd.bcasts) > 0 {
+		var bs []string
+		for _, bc := range nd.bcasts {
+			bs = append(bs, fmt.Sprintf("%d.%d.%d:%d/%d/%d/%d", bc.typ, bc.version, k.times[i].rank(bc.time), bc.acc, bc.rej, bc.errs, bc.outstanding))
 		}
+		sort.Strings(bs)
+		w.kStr(" bc")
+		for _, s := range bs {
+			w.kStr(s)
+			w.kStr(",")
+		}
+	}
+	w.kStr(" R")
+	for _, r := range nd.results {
+		w.kStr(r)
+	}
+	w.kStr(";")
+}
+
+// msgSeg renders a pending message; the receiver's index is left out when withTo is false.
+func (w *world) msgSeg(k *keyCtx, m *msg, withTo bool) string {
+	b := make([]byte, 0, 48)
+	b = strconv.AppendInt(b, int64(m.from), 10)
+	b = append(b, '>')
+	if withTo {
+		b = strconv.AppendInt(b, int64(m.to), 10)
+	}
+	b = append(b, '.')
+	b = strconv.AppendInt(b, int64(m.req.RequestType), 10)
+	b = append(b, '.')
+	b = strconv.AppendInt(b, int64(m.req.Version), 10)
+	b = append(b, '.')
+	b = append(b, valStr(m.req.Value)...)
+	b = append(b, '.')
+	b = strconv.AppendInt(b, int64(k.times[m.from].rank(m.req.SenderTime)), 10)
+	if m.stage == 1 {
+		if m.err != nil {
+			b = append(b, ".err"...)
+		} else {
+			if m.resp.Accept {
+				b = append(b, ".A"...)
+			} else {
+				b = append(b, ".R"...)
+			}
+			b = strconv.AppendInt(b, int64(m.resp.Version), 10)
+			b = append(b, '.')
+			b = append(b, valStr(m.resp.Value)...)
+		}
+	}
+	if m.dup {
+		b = append(b, ".dup"...)
+	}
+	if m.dupped {
+		b = append(b, ".dd"...)
+	}
+	return string(b)
+}
+
+func (w *world) sleeperSeg(k *keyCtx, i int, withTo bool) string {
+	s := w.sleepers[i]
+	b := make([]byte, 0, 24)
+	b = strconv.AppendInt(b, int64(k.slRank[i]), 10)
+	b = append(b, ':')
+	b = strconv.AppendInt(b, int64(s.from), 10)
+	b = append(b, '>')
+	if withTo {
+		b = strconv.AppendInt(b, int64(s.to), 10)
+	}
+	b = append(b, '.')
+	b = strconv.AppendInt(b, int64(s.typ), 10)
+	b = append(b, '.')
+	b = strconv.AppendInt(b, int64(k.times[s.from].rank(s.time)), 10)
+	return string(b)
+}
+
+// passiveSig renders a passive replica together with everything that refers to it (messages and retry
+// sleeps addressed to it; a passive replica never sends a request), without its index.
+func (w *world) passiveSig(k *keyCtx, p int) string {
+	start := len(w.kb)
+	w.nodeSeg(k, p)
+	var ms []string
+	for _, m := range w.pend {
+		if m.to == p {
+			ms = append(ms, w.msgSeg(k, m, false))
+		}
+	}
+	sort.Strings(ms)
+	w.kStr("M")
+	for _, x := range ms {
+		w.kStr(x)
+		w.kStr(" ")
+	}
+	ms = ms[:0]
+	for i, sl := range w.sleepers {
+		if sl.to == p {
+			ms = append(ms, w.sleeperSeg(k, i, false))
+		}
+	}
+	sort.Strings(ms)
+	w.kStr("S")
+	for _, x := range ms {
+		w.kStr(x)
+		w.kStr(" ")
+	}
+	sig := string(w.kb[start:])
+	w.kb = w.kb[:start]
+	return sig
+}
+
+// passiveSigs returns the signature of every passive replica (index -> signature).
+func (w *world) passiveSigs() map[int]string {
+	k := w.newKeyCtx()
+	out := map[int]string{}
+	for i := range w.nodes {
+		if w.passive(i) {
+			out[i] = w.passiveSig(k, i)
+		}
+	}
+	return out
+}
+
+// key renders everything the future of the execution depends on, except absolute virtual time:
+// SenderTimes are replaced by their rank among the times of the same sender that are still referenced.
+// In Sym configurations passive replicas appear as a sorted multiset of signatures, so two states that
+// differ only by a permutation of passive replicas have the same key.
+func (w *world) key() string {
+	k := w.newKeyCtx()
+	w.kb = w.kb[:0]
+	var sigs []string
+	for i := range w.nodes {
+		if w.passive(i) {
+			sigs = append(sigs, w.passiveSig(k, i))
+		} else {
+			w.nodeSeg(k, i)
+		}
+	}
+	if len(sigs) > 0 {
+		sort.Strings(sigs)
+		w.kStr("P{")
+		for _, x := range sigs {
+			w.kStr(x)
+			w.kStr("|")
+		}
+		w.kStr("}")
+	}
+	var ms []string
+	for _, m := range w.pend {
+		if !w.passive(m.to) {
+			ms = append(ms, w.msgSeg(k, m, true))
+		}
+	}
+	if len(ms) > 0 {
 		sort.Strings(ms)
 		w.kStr("M")
 		for _, s := range ms {
@@ -1172,18 +1421,17 @@ func (w *world) key() string {
 			w.kStr(" ")
 		}
 	}
-	if len(w.sleepers) > 0 {
-		sorted := append([]sleeper(nil), w.sleepers...)
-		sort.Slice(sorted, func(a, b int) bool { return sorted[a].deadline.Before(sorted[b].deadline) })
+	ms = ms[:0]
+	for i, sl := range w.sleepers {
+		if !w.passive(sl.to) {
+			ms = append(ms, w.sleeperSeg(k, i, true))
+		}
+	}
+	if len(ms) > 0 {
+		sort.Strings(ms)
 		w.kStr("S")
-		for _, s := range sorted {
-			w.kInt(s.from)
-			w.kStr(">")
-			w.kInt(s.to)
-			w.kStr(".")
-			w.kInt(int(s.typ))
-			w.kStr(".")
-			w.kInt(times[s.from].rank(s.time))
+		for _, s := range ms {
+			w.kStr(s)
 			w.kStr(" ")
 		}
 	}
